@@ -60,6 +60,7 @@ RULE = ("Hypothesis draws a target (compute_keypoints directly; "
         "increase and PWLCalibration clauses apply); distinct by SHA-1 of the "
         "case.")
 NT_FLOOR = 0.6
+FUZZ = {"thorough": 60000}   # atheris executions per shard (thorough tier)
 BUDGET = {"quick": 2500, "thorough": 30000}
 ASSUMPTIONS = [
     "a sample that is empty after removing default_value is not generated "
